@@ -2,6 +2,7 @@ package rules
 
 import (
 	"go/ast"
+	"go/token"
 	"go/types"
 
 	"verif/mlbcheck/chk"
@@ -21,6 +22,10 @@ func init() {
 			"enumerated refusal conditions (NO-EXTRA-REFUSAL). Values of the per-address conjunction over slices beyond the sticky-false structure.",
 		Run: runC10,
 		Mutants: []Mutant{
+			{Name: "node-update-dropped-by-resource-version-prefix", File: "internal/k8s/controllers/config_controller.go",
+				Old: "\tif labels.Equals(labels.Set(oldNodeObj.Labels), labels.Set(newNodeObj.Labels)) {\n\t\treturn false\n\t}\n\treturn true\n}\n\nfunc filterNamespaceEvent", New: "\tif oldNodeObj.Generation == newNodeObj.Generation {\n\t\treturn false\n\t}\n\tif labels.Equals(labels.Set(oldNodeObj.Labels), labels.Set(newNodeObj.Labels)) {\n\t\treturn false\n\t}\n\treturn true\n}\n\nfunc filterNamespaceEvent", Expect: "CONFIG-NODE-EVENTS"},
+			{Name: "bgp-advertisement-skipped-for-pools-that-have-one", File: "internal/config/config.go",
+				Old: "\t\t\tif pool, ok := ipPoolMap[poolName]; ok {\n\t\t\t\terr := validateBGPAdvPerPool(adv, pool)", New: "\t\t\tif pool, ok := ipPoolMap[poolName]; ok {\n\t\t\t\tif len(pool.BGPAdvertisements) > 0 && len(adv.Peers) == 0 {\n\t\t\t\t\tcontinue\n\t\t\t\t}\n\t\t\t\terr := validateBGPAdvPerPool(adv, pool)", Expect: "every-existing-pool"},
 			{Name: "last-node-selector-wins", File: "internal/config/config.go",
 				Old: "\t\tfor _, s := range labelSelectors {\n\t\t\tnodeLabels := labels.Set(node.Labels)\n\t\t\tif s.Matches(nodeLabels) {\n\t\t\t\tres[node.Name] = true\n\t\t\t\tcontinue OUTER\n\t\t\t}\n\t\t}\n\t}\n\treturn res, nil",
 				New: "\t\tselected := false\n\t\tfor _, s := range labelSelectors {\n\t\t\tnodeLabels := labels.Set(node.Labels)\n\t\t\tselected = s.Matches(nodeLabels)\n\t\t}\n\t\tif selected {\n\t\t\tres[node.Name] = true\n\t\t\tcontinue OUTER\n\t\t}\n\t}\n\treturn res, nil", Expect: "every-matching-node"},
@@ -56,6 +61,9 @@ func init() {
 }
 
 func runC10(p *chk.Prog, r *chk.Report) {
+	// the advertisements in force for a pool are all those that name or select it (ATTACH, shared with C08, C05)
+	c08Attach(p, r)
+	configNodeEventsRule(p, r)
 	// a failed session update is reported, so that it is retried (PUBLISH, shared with C05)
 	c05Publish(p, r)
 	nodeExclusionRule(p, r)
@@ -494,4 +502,44 @@ func c10EveryEntry(x *chk.R, f *chk.Fn, addrLoop *ast.RangeStmt) {
 		pos = bad.Pos()
 	}
 	x.Check("hasHealthyEndpoint:every-entry-examined", pos, bad == nil, "", "the scan over slices, entries and addresses can end before the last one (break / return / jump out of the loops): later entries are never examined")
+}
+
+// configNodeEventsRule (shared with C08, C05): the per-advertisement node sets are rendered from the nodes' labels by the
+// configuration reconciler, which hears of a label change only through its update filter. The filter may drop a Node
+// update only when the labels of the old and the new object are equal - whatever else is the same about them.
+func configNodeEventsRule(p *chk.Prog, r *chk.Report) {
+	x := r.Rule("CONFIG-NODE-EVENTS", "B path", "controllers.filterNodeEvent returns false (drops the update) only behind labels.Equals(labels.Set(old.Labels), labels.Set(new.Labels)) for the two Node objects of the event", 1)
+	f := need(x, p, ctrlPkg, "", "filterNodeEvent")
+	if f == nil {
+		return
+	}
+	g := f.Graph()
+	ev := isParamIdx(f, 0)
+	oldN := definedBy(g, "E.ObjectOld.(*corev1.Node)", chk.H("E", ev))
+	newN := definedBy(g, "E.ObjectNew.(*corev1.Node)", chk.H("E", ev))
+	equal := chk.GSame(g.GPat(true, "labels.Equals(labels.Set(O.Labels), labels.Set(N.Labels))", chk.H("O", oldN), chk.H("N", newN)),
+		g.GPat(true, "labels.Equals(labels.Set(N.Labels), labels.Set(O.Labels))", chk.H("O", oldN), chk.H("N", newN)),
+		g.GPat(true, "reflect.DeepEqual(O.Labels, N.Labels)", chk.H("O", oldN), chk.H("N", newN)),
+		g.GPat(true, "maps.Equal(O.Labels, N.Labels)", chk.H("O", oldN), chk.H("N", newN)))
+	n := 0
+	for _, rt := range g.Returns() {
+		res := retResults(rt)
+		if len(res) != 1 {
+			continue
+		}
+		if f.IsConstBool(res[0], true) {
+			continue
+		}
+		n++
+		ok := f.IsConstBool(res[0], false) && g.Dominated(rt, equal)
+		if !ok && !f.IsConstBool(res[0], false) {
+			// the comparison returned directly: !labels.Equals(...)
+			if u, isU := ast.Unparen(res[0]).(*ast.UnaryExpr); isU && u.Op == token.NOT {
+				ok = f.MatchWith("labels.Equals(labels.Set(O.Labels), labels.Set(N.Labels))", u.X, chk.H("O", oldN), chk.H("N", newN)) != nil ||
+					f.MatchWith("labels.Equals(labels.Set(N.Labels), labels.Set(O.Labels))", u.X, chk.H("O", oldN), chk.H("N", newN)) != nil
+			}
+		}
+		x.Check("filterNodeEvent:drop-only-for-equal-labels#"+itoa(n), rt.Pos(), ok, "", "a Node update can be dropped although its labels changed (an extra shortcut before the label comparison): the advertisements' node sets are not re-rendered, and a node that a selector newly matches / no longer matches keeps its old announcing role")
+	}
+	x.Check("filterNodeEvent:drop-site", f.Pos(), n >= 1, "", "no dropping return found")
 }
